@@ -18,10 +18,10 @@ def Supported : PyVal → Prop
   | _ => False
 
 /-- datatypes whose XSD value space CPython's types hold exactly (no range / precision limit):
-    the integer family, decimal, boolean, the string family, hexBinary -/
+    the integer family, decimal, boolean, the string family, hexBinary, base64Binary -/
 def Covered (d : Dt) : Bool :=
   match d.conv with
-  | .int | .decimal | .boolean | .none | .hex => true
+  | .int | .decimal | .boolean | .none | .hex | .b64 => true
   | _ => false
 
 /-- "`v` is the value XSD assigns to the lexical form `s` of datatype `d`" -/
@@ -33,6 +33,7 @@ def ValueIs (d : Dt) (s : Str) (v : Option PyVal) : Prop :=
   | .boolean => ∃ b, Spec.boolVal? s = some b ∧ v = some (.bool b)
   | .none => v = some (.str s)
   | .hex => v = some (.bytes (Spec.hexVal s))
+  | .b64 => v = some (.bytes (Spec.b64ValOf s))
   | _ => v.isSome = true   -- date/time/duration families: *a* value (the fields are tied by correspondence)
 
 /-- literals the constructors produce: `Literal(s, datatype=dt, normalize=nz)` for any string, any
@@ -50,7 +51,7 @@ def Denotes (l : Lit) : Prop := ∀ v, l.value = some v → castLex l.dt l.lex =
 def ExactBack (dt : Option Dt) : Bool :=
   match dt with
   | none => true
-  | some d => match d.conv with | .int | .boolean | .none | .hex => true | _ => false
+  | some d => match d.conv with | .int | .boolean | .none | .hex | .b64 => true | _ => false
 
 /-- whole-minute utcoffset (microseconds), strictly inside ±24 h -/
 def TzOk (tz : Option Int) : Prop :=
